@@ -217,8 +217,9 @@ def run(ck, F, E):
     for fn in ("Arrays::get_value_at_index", "Arrays::set_value_at_index"):
         b = F.one(fn)
         if b is not None:
-            c = b.calls_to("Arrays::maybe_create_default_array")
-            ok = len(c) == 1 and "len" in show(b.expr(c[0].args[2])) and 2 in expr_params(b.expr(c[0].args[2]))
+            from lib import calls_through
+            c = calls_through(F, b, "Arrays::maybe_create_default_array")     # directly or through a forwarding helper
+            ok = len(c) == 1 and c[0].args[2] is not None and "len" in show(b.expr(c[0].args[2])) and 2 in expr_params(b.expr(c[0].args[2]))
             ck.require(ok, "C03:DEFAULT:dimensionality:%s" % fn.split("::")[-1], "defaults",
                        "the implicit array has as many dimensions as subscripts given", "%s creates implicit arrays of another rank" % fn, b.span)
     nb = get_fn(ck, F, "DimArray::new")
